@@ -77,6 +77,7 @@ func TestCheck(t *testing.T) {
 		{"create-and-enter-keeps-lazy-directory", 3, 30},
 		{"create-over-existing-entry-refused", 20, 200},
 		{"immutability-probed-symlink", 20, 200},
+		{"immutability-probed-setattr-combination", 100, 1000},
 		{"malformed-symlink-target-refused", 3, 30},
 		{"naive-transient-fault-then-clean-merge", 3, 30},
 		{"naive-vanished-cache-file-repaired", 3, 30},
